@@ -311,8 +311,41 @@ pub fn def_strategy(cfg: GenCfg) -> BoxedStrategy<DefSpec> {
         4 => Just((1..=8usize).collect::<Vec<_>>()).prop_shuffle().prop_map(PrioMode::Distinct),
         2 => vec(prop::option::weighted(0.6, 1usize..=4), 8).prop_map(PrioMode::Mixed),
     ];
-    (vec(pat, 1..=6), vec(skip, 0..=2), prio, vec(any::<bool>(), 6))
-        .prop_map(move |(mut pats, mut skips, prio, share)| {
+    // extension patterns: an existing pattern followed by a tail, as a skip or as another variant - the lexer has to carry an
+    // earlier accept (the shorter pattern) through states of the longer one and fall back to it
+    const TAILS: &[&str] = &["[a-z]*", "[ -~]*", "[a-c]+", "x*", "(?:ab)*", "[^\\n]*", "[0-9a-c]*b", "-?", "[ \\n]+"];
+    let exts = vec((any::<u8>(), select(TAILS), 0u8..3), 0..=2);
+    let shared_prefix = prop::option::weighted(0.12, select(vec![" *", "a*", "[ab]*", "(?:ab)*", "x?"]));
+    (vec(pat, 1..=6), vec(skip, 0..=2), prio, vec(any::<bool>(), 6), prop::option::weighted(0.35, exts), shared_prefix)
+        .prop_map(move |(mut pats, mut skips, prio, share, exts, shared_prefix)| {
+            for (bi, tail, role) in exts.unwrap_or_default() {
+                let base = &pats[bi as usize % pats.len()];
+                if base.lit.bytes {
+                    continue;
+                }
+                let head = if base.kind == crate::spec::PatKind::Token { regex_syntax::escape(&base.lit.text) } else { format!("(?:{})", base.lit.text) };
+                let mut p = PatSpec::regex(LitSpec::str(format!("{head}{tail}")));
+                p.allow_greedy = base.allow_greedy || tail == "[^\\n]*";
+                p.ignore_case = base.ignore_case;
+                if role == 0 && skips.len() < 3 {
+                    skips.push(p);
+                } else if pats.len() < 8 {
+                    pats.push(p);
+                }
+            }
+            // shared loop prefix: every pattern (skips included) starts with the same optional repetition, so the root of the
+            // graph loops on itself
+            if let Some(pre) = shared_prefix {
+                if skips.iter().chain(pats.iter()).all(|p| !p.lit.bytes) {
+                    for p in skips.iter_mut().chain(pats.iter_mut()) {
+                        let body = if p.kind == crate::spec::PatKind::Token { regex_syntax::escape(&p.lit.text) } else { format!("(?:{})", p.lit.text) };
+                        let mut q = PatSpec::regex(LitSpec::str(format!("{pre}{body}")));
+                        q.allow_greedy = p.allow_greedy;
+                        q.ignore_case = p.ignore_case;
+                        *p = q;
+                    }
+                }
+            }
             let all = skips.iter_mut().chain(pats.iter_mut());
             for (i, p) in all.enumerate() {
                 match &prio {
@@ -398,13 +431,15 @@ pub fn conflict_defs() -> BoxedStrategy<DefSpec> {
         }),
     ];
     let prio = prop::option::weighted(0.5, 1usize..=4);
-    (vec((pat, prio), 2..=6), prop::bool::weighted(0.3), any::<bool>())
-        .prop_map(|(pats, with_skip, utf8)| {
+    // number of leading patterns that become skips: ties among skips only, between a skip and a token, among tokens
+    let n_skips = prop_oneof![6 => Just(0usize), 2 => Just(1usize), 2 => Just(2usize), 1 => Just(3usize)];
+    (vec((pat, prio), 2..=6), n_skips, any::<bool>())
+        .prop_map(|(pats, n_skips, utf8)| {
             let mut skips = vec![];
             let mut variants = vec![];
             for (i, (mut p, pr)) in pats.into_iter().enumerate() {
                 p.priority = pr;
-                if with_skip && i == 0 {
+                if i < n_skips {
                     p.kind = crate::spec::PatKind::Regex;
                     if p.lit.text.is_empty() {
                         continue;
@@ -660,6 +695,8 @@ pub struct SubCase {
     /// an undefined / forward reference was planted: the derive must reject
     pub must_reject: bool,
     pub max_ref_depth: usize,
+    /// 0: undefined / forward reference ("not found"); 1: a subpattern source that is no regex on its own
+    pub reject_kind: u8,
 }
 
 pub fn subpattern_defs() -> BoxedStrategy<SubCase> {
@@ -672,7 +709,7 @@ pub fn subpattern_defs() -> BoxedStrategy<SubCase> {
         vec(pattern_ast(&cfg), 1..=3),
         vec(any::<u8>(), 12),
         names,
-        prop::option::weighted(0.12, 0u8..3),
+        prop::option::weighted(0.15, 0u8..4),
         prop::bool::weighted(0.4),
         vec(1usize..=8, 4).prop_shuffle(),
         prop::bool::weighted(0.65),
@@ -737,6 +774,7 @@ pub fn subpattern_defs() -> BoxedStrategy<SubCase> {
                 })
                 .collect();
             let mut must_reject = false;
+            let mut reject_kind = 0u8;
             match sabotage {
                 Some(0) => {
                     // undefined name (in a regex pattern: #[token] literals are not scanned for references)
@@ -761,9 +799,25 @@ pub fn subpattern_defs() -> BoxedStrategy<SubCase> {
                         must_reject = true;
                     }
                 }
+                Some(3) => {
+                    // a source that only parses once it is wrapped in a group: its alternation / groups would leak into the
+                    // referencing pattern, so the definition cannot be implemented as scoped inclusion
+                    const UNBALANCED: &[&str] = &["a)|(b", "a)(b", "[a-c])|(x", "k)*(k", "a|b)|(c"];
+                    let used: Vec<String> = skips
+                        .iter()
+                        .chain(variants.iter().flatten())
+                        .filter(|p| p.kind == crate::spec::PatKind::Regex && !p.lit.bytes)
+                        .map(|p| p.lit.text.clone())
+                        .collect();
+                    if let Some(sp) = subpatterns.iter_mut().find(|sp| !sp.lit.bytes && used.iter().any(|t| t.contains(&format!("(?&{})", sp.name)))) {
+                        sp.lit = LitSpec::str(UNBALANCED[max_depth % UNBALANCED.len()]);
+                        must_reject = true;
+                        reject_kind = 1;
+                    }
+                }
                 _ => {}
             }
-            SubCase { def: DefSpec { utf8, subpatterns, skips, variants }, must_reject, max_ref_depth: max_depth }
+            SubCase { def: DefSpec { utf8, subpatterns, skips, variants }, must_reject, max_ref_depth: max_depth, reject_kind }
         })
         .prop_filter("pattern over the determinization budget", |c| crate::reference::cost_ok(&c.def, COST_LIMIT))
         .boxed()
@@ -785,7 +839,7 @@ pub fn callback_defs() -> BoxedStrategy<(DefSpec, Vec<bool>, bool)> {
         2 => def_strategy(GenCfg { utf8: true, unicode: true, looks: false, byte_items: false, flags: false, max_depth: 2 }),
         1 => def_strategy(GenCfg { utf8: false, unicode: false, looks: false, byte_items: true, flags: false, max_depth: 2 }),
     ];
-    (base, vec((any::<u8>(), any::<u32>(), 0u8..3, 0u8..4, prop::bool::weighted(0.85)), 10), vec(any::<bool>(), 8), prop::bool::weighted(0.5))
+    (base, vec((any::<u8>(), any::<u32>(), 0u8..3, 0u8..6, prop::bool::weighted(0.85)), 10), vec(any::<bool>(), 8), prop::bool::weighted(0.5))
         .prop_map(|(mut def, specs, values, error_cb)| {
             // one pattern per variant (the variant kind decides the admissible return types)
             let flat: Vec<PatSpec> = def.variants.drain(..).flatten().collect();
